@@ -343,8 +343,38 @@ fn disasm_inputs() -> Vec<Vec<u8>> {
     out
 }
 
+// ---- modern printer: printed text is read back to the same CLVM value by the modern reader and by the classic assembler
+fn chk_modern_print(clvm_bytes: &[u8]) -> Option<Value> {
+    use chialisp::classic::clvm_tools::binutils::assemble;
+    use chialisp::compiler::clvm::{convert_from_clvm_rs, convert_to_clvm_rs};
+    use chialisp::compiler::sexp::parse_sexp;
+    use chialisp::compiler::srcloc::Srcloc;
+    let data = clvm_bytes.to_vec();
+    let res = catch_unwind(move || {
+        let mut a = clvmr::Allocator::new();
+        let n = match clvmr::serde::node_from_bytes(&mut a, &data) { Ok(n) => n, Err(_) => return None };
+        let rich = convert_from_clvm_rs(&mut a, Srcloc::start("*replay*"), n).ok()?;
+        let text = rich.to_string();
+        let modern = parse_sexp(Srcloc::start("*replay*"), text.bytes()).ok().and_then(|v| v.first().cloned())
+            .and_then(|s| convert_to_clvm_rs(&mut a, s).ok()).and_then(|m| clvmr::serde::node_to_bytes(&a, m).ok());
+        if modern.as_ref() != Some(&data) { return Some((text, format!("modern reader gave {:?}", modern))); }
+        let classic = assemble(&mut a, &text).ok().and_then(|m| clvmr::serde::node_to_bytes(&a, m).ok());
+        if classic.as_ref() != Some(&data) { return Some((text, format!("classic assembler gave {:?}", classic))); }
+        None
+    });
+    match res {
+        Ok(Some((text, o))) => Some(hit(json!({"clvm_bytes": clvm_bytes}), format!("printed text {:?} reads back to the same bytes", text), o, "SExp Display then parse_sexp / binutils::assemble")),
+        Err(_) => Some(hit(json!({"clvm_bytes": clvm_bytes}), "no panic".into(), "panic".into(), "modern print/read panicked")),
+        _ => None,
+    }
+}
+
 pub fn search(name: &str, _seed: u64) -> Value {
     match name {
+        "modern_print" | "printable" | "escape_quote" | "make_atom" => {
+            for d in disasm_inputs() { if let Some(v) = chk_modern_print(&d) { return v; } }
+            nf("modern printed text is read back identically by parse_sexp and by the classic assembler on the enumerated values")
+        }
         "disassemble" | "ir_for_atom" | "has_oversized_sign_extension" | "consume_quoted" | "pybytes_repr" | "interpret_atom_value" | "assemble" => {
             for d in disasm_inputs() { if let Some(v) = chk_disasm(&d) { return v; } }
             nf("disassemble/assemble round trip holds for the enumerated atoms (all 1-byte, 2304 2-byte, special 3-byte) alone, as operator and as tail, versions 0..2")
@@ -393,6 +423,7 @@ pub fn search(name: &str, _seed: u64) -> Value {
 
 pub fn run_input(name: &str, input: &Value) -> Value {
     match name {
+        "modern_print" => chk_modern_print(&bytes(&input["clvm_bytes"])).unwrap_or_else(|| nf("input does not violate the contract on this tree")),
         "disassemble" | "ir_for_atom" | "consume_quoted" | "pybytes_repr" => chk_disasm(&bytes(&input["clvm_bytes"])).unwrap_or_else(|| nf("input does not violate the contract on this tree")),
         "advance" | "srcloc" => chk_advance(input["line"].as_u64().unwrap_or(1) as usize, input["col"].as_u64().unwrap_or(1) as usize, input["ch"].as_u64().unwrap_or(0) as u8).unwrap_or_else(|| nf("input does not violate the contract on this tree")),
         "convert_from_clvm_rs" | "convert_to_clvm_rs" | "convert" | "sha256tree" => chk_convert(&bytes(&input["clvm_bytes"])).unwrap_or_else(|| nf("input does not violate the contract on this tree")),
